@@ -84,10 +84,10 @@ def read_tree(root):
     return res
 
 
-def generate(P, inp, eccfile):
-    """returns exit status text ('0' / 'exception:Type: msg')"""
+def generate(P, inp, eccfile, extra=None):
+    """returns exit status text ('0' / 'exception:Type: msg'); `extra` = further generation options"""
     m = tool(P.tool)
-    argv = ["-i", inp, "-d", eccfile, "-g", "-f", "--silent"] + P.common_args()
+    argv = ["-i", inp, "-d", eccfile, "-g", "-f", "--silent"] + P.common_args() + list(extra or [])
     try:
         with common.captured():
             rc = m.main(argv)
